@@ -1,9 +1,310 @@
-(* C12 — property theorems only (preliminary). *)
-From MV Require Import C12.Modes C12.Proofs_Modes.
+(* C12 — property theorems only.  Each is closed by [exact] of a lemma proved under
+   C12/ and followed by Print Assumptions.
+
+   Reading guide.  "Equals the standard": the block primitives of the model are the
+   specification layer (C12/Spec_AES.v = FIPS-197, C12/Spec_DES.v = FIPS 46-3), a
+   transcription validated against the standards' own vectors in C12/KAT_*.v; the
+   library's mode loops are transcribed in C12/Modes.v and run SP 800-38A F.1-F.5 in
+   C12/KAT_Modes.v.  Implementation = model is the differential run of bin/check.
+   The theorems below are the parts of the property that quantify over all keys, IVs,
+   messages, lengths and partitions.  Non-vacuity Examples: aes_hyps_nonvacuous,
+   des_hyps_nonvacuous, reject_nonvacuous (C12/Proofs_API.v) and the KAT files. *)
+From MV Require Import C12.Modes C12.Proofs_Modes C12.Proofs_DES C12.Proofs_AES C12.Proofs_AES_Key C12.Proofs_API.
+From MV Require Import C12.Proofs_SP80038A C12.KAT_AES C12.KAT_DES C12.KAT_Modes.
 Local Open Scope N_scope.
+
+(* ===== 1. the mode loops, generic over ANY block primitive E with inverse D on bs-byte blocks ===== *)
 
 Theorem ecb_dec_enc : forall bs (E D : list N -> list N),
   (forall b, wfb bs b -> wfb bs (E b)) -> (forall b, wfb bs b -> D (E b) = b) ->
   forall n m, length m = (n * bs)%nat -> bytes m -> ecb_loop bs D n (ecb_loop bs E n m) = m.
 Proof. exact ecb_dec_enc_gen. Qed.
 Print Assumptions ecb_dec_enc.
+
+(* decryption returns the message AND leaves the same iv behind as encryption did *)
+Theorem cbc_dec_enc : forall bs (E D : list N -> list N),
+  (forall b, wfb bs b -> wfb bs (E b)) -> (forall b, wfb bs b -> D (E b) = b) ->
+  forall n iv m, wfb bs iv -> length m = (n * bs)%nat -> bytes m ->
+  cbc_dec_loop bs D n iv (snd (cbc_enc_loop bs E n iv m)) = (fst (cbc_enc_loop bs E n iv m), m).
+Proof. exact cbc_dec_enc_gen. Qed.
+Print Assumptions cbc_dec_enc.
+
+(* stream modes: any E (not even a permutation is needed), any iv, any starting offset, any length *)
+Theorem cfb_dec_enc : forall bs (E : list N -> list N) m iv off,
+  let '(iv', off', c) := cfb_loop bs E true iv off m in cfb_loop bs E false iv off c = (iv', off', m).
+Proof. exact cfb_dec_enc_gen. Qed.
+Print Assumptions cfb_dec_enc.
+
+Theorem ofb_dec_enc : forall bs (E : list N -> list N) m iv off,
+  let '(iv', off', c) := ofb_loop bs E iv off m in ofb_loop bs E iv off c = (iv', off', m).
+Proof. exact ofb_dec_enc_gen. Qed.
+Print Assumptions ofb_dec_enc.
+
+Theorem ctr_dec_enc : forall bs (E : list N -> list N) incr m w off sb,
+  let '(w', off', sb', c) := ctr_loop bs E incr w off sb m in ctr_loop bs E incr w off sb c = (w', off', sb', m).
+Proof. exact ctr_dec_enc_gen. Qed.
+Print Assumptions ctr_dec_enc.
+
+(* chunking: m1 ++ m2 in two calls carrying (iv, offset[, stream block, nonce]) = one call *)
+Theorem cfb_chunking : forall bs (E : list N -> list N) enc m1 m2 iv off,
+  cfb_loop bs E enc iv off (m1 ++ m2) =
+  let '(iv1, off1, o1) := cfb_loop bs E enc iv off m1 in
+  let '(iv2, off2, o2) := cfb_loop bs E enc iv1 off1 m2 in (iv2, off2, o1 ++ o2).
+Proof. exact cfb_chunking_gen. Qed.
+Print Assumptions cfb_chunking.
+
+Theorem ofb_chunking : forall bs (E : list N -> list N) m1 m2 iv off,
+  ofb_loop bs E iv off (m1 ++ m2) =
+  let '(iv1, off1, o1) := ofb_loop bs E iv off m1 in
+  let '(iv2, off2, o2) := ofb_loop bs E iv1 off1 m2 in (iv2, off2, o1 ++ o2).
+Proof. exact ofb_chunking_gen. Qed.
+Print Assumptions ofb_chunking.
+
+Theorem ctr_chunking : forall bs (E : list N -> list N) incr m1 m2 w off sb,
+  ctr_loop bs E incr w off sb (m1 ++ m2) =
+  let '(w1, off1, sb1, o1) := ctr_loop bs E incr w off sb m1 in
+  let '(w2, off2, sb2, o2) := ctr_loop bs E incr w1 off1 sb1 m2 in (w2, off2, sb2, o1 ++ o2).
+Proof. exact ctr_chunking_gen. Qed.
+Print Assumptions ctr_chunking.
+
+(* hence any partition (induction on the list of chunks) *)
+Theorem cfb_any_partition : forall bs (E : list N -> list N) enc chunks iv off,
+  cfb_calls bs E enc iv off chunks = cfb_loop bs E enc iv off (concat chunks).
+Proof. exact cfb_any_partition_gen. Qed.
+Print Assumptions cfb_any_partition.
+
+Theorem ofb_any_partition : forall bs (E : list N -> list N) chunks iv off,
+  ofb_calls bs E iv off chunks = ofb_loop bs E iv off (concat chunks).
+Proof. exact ofb_any_partition_gen. Qed.
+Print Assumptions ofb_any_partition.
+
+Theorem ctr_any_partition : forall bs (E : list N -> list N) incr chunks w off sb,
+  ctr_calls bs E incr w off sb chunks = ctr_loop bs E incr w off sb (concat chunks).
+Proof. exact ctr_any_partition_gen. Qed.
+Print Assumptions ctr_any_partition.
+
+(* CBC chains through iv as well: whole blocks in two calls = one call, both directions *)
+Theorem cbc_enc_chunking : forall bs (E : list N -> list N) n1 n2 m1 m2 iv, length m1 = (n1 * bs)%nat ->
+  cbc_enc_loop bs E (n1 + n2) iv (m1 ++ m2) =
+  let '(iv1, o1) := cbc_enc_loop bs E n1 iv m1 in
+  let '(iv2, o2) := cbc_enc_loop bs E n2 iv1 m2 in (iv2, o1 ++ o2).
+Proof. exact cbc_enc_chunking_gen. Qed.
+Print Assumptions cbc_enc_chunking.
+
+Theorem cbc_dec_chunking : forall bs (D : list N -> list N) n1 n2 m1 m2 iv, length m1 = (n1 * bs)%nat ->
+  cbc_dec_loop bs D (n1 + n2) iv (m1 ++ m2) =
+  let '(iv1, o1) := cbc_dec_loop bs D n1 iv m1 in
+  let '(iv2, o2) := cbc_dec_loop bs D n2 iv1 m2 in (iv2, o1 ++ o2).
+Proof. exact cbc_dec_chunking_gen. Qed.
+Print Assumptions cbc_dec_chunking.
+
+(* the library's counter (nonce[0] += 1, carry into nonce[1] when it wrapped to 0) is the
+   little-endian 128-bit counter n0 + 2^64 n1 incremented modulo 2^128; DES: modulo 2^64 *)
+Theorem ctr_counter_carry : forall n0 n1, n0 < two64 -> n1 < two64 ->
+  let v := (n0 + two64 * n1 + 1) mod (two64 * two64) in
+  incr_aes [n0; n1] = [v mod two64; v / two64].
+Proof. exact ctr_counter_carry_aes. Qed.
+Print Assumptions ctr_counter_carry.
+
+Theorem ctr_counter_des64 : forall n, incr_des [n] = [(n + 1) mod two64].
+Proof. exact ctr_counter_des. Qed.
+Print Assumptions ctr_counter_des64.
+
+(* the library's byte-at-a-time stream loops ARE the block-wise definitions of SP 800-38A (6.3 CFB with
+   s = b, 6.4 OFB, 6.5 CTR over the library's counter), for every block primitive E with bs-byte output,
+   every IV / counter and every message length (last segment truncated); ECB and CBC are block-wise in the
+   code already (ecb_loop, cbc_enc_loop, cbc_dec_loop are 6.1 / 6.2 verbatim).
+     ofb_keystream E n iv = E(iv) || E(E(iv)) || ...            (n blocks)
+     ctr_keystream E incr n w = E(T_1) || E(T_2) || ...,  T_j = bytes of incr^j(w)
+     sp_cfb bs E enc n prev m : C_j = P_j xor E(C_(j-1)), C_0 = prev (enc = false: P_j = C_j xor E(C_(j-1))) *)
+Theorem ofb_equals_sp80038a : forall bs (E : list N -> list N), (bs = 16 \/ bs = 8)%nat ->
+  (forall b, length (E b) = bs) -> forall m iv, length iv = bs ->
+  snd (ofb_loop bs E iv 0 m) = xorl m (ofb_keystream E (length m) iv).
+Proof. exact ofb_sp80038a_blocksize. Qed.
+Print Assumptions ofb_equals_sp80038a.
+
+Theorem ctr_equals_sp80038a : forall bs (E incr : list N -> list N), (bs = 16 \/ bs = 8)%nat ->
+  (forall b, length (E b) = bs) -> forall m w sb, length sb = bs ->
+  snd (ctr_loop bs E incr w 0 sb m) = xorl m (ctr_keystream E incr (length m) w).
+Proof. exact ctr_sp80038a_blocksize. Qed.
+Print Assumptions ctr_equals_sp80038a.
+
+Theorem cfb_equals_sp80038a : forall bs (E : list N -> list N), (bs = 16 \/ bs = 8)%nat ->
+  (forall b, length (E b) = bs) -> forall enc n m iv, length iv = bs -> (length m <= n * bs)%nat ->
+  snd (cfb_loop bs E enc iv 0 m) = sp_cfb bs E enc n iv m.
+Proof. exact cfb_sp80038a_blocksize. Qed.
+Print Assumptions cfb_equals_sp80038a.
+
+(* resumed at an offset inside a block (state carried from an earlier call): the rest of the current
+   keystream block is consumed first, then the block-wise definition continues *)
+Theorem ofb_resumed_equals_sp80038a : forall bs (E : list N -> list N), (bs = 16 \/ bs = 8)%nat ->
+  (forall b, length (E b) = bs) -> forall m iv off n, length iv = bs -> (N.to_nat off < bs)%nat -> (length m <= n)%nat ->
+  snd (ofb_loop bs E iv off m) = xorl m (tail_of iv off ++ ofb_keystream E n iv).
+Proof. exact ofb_sp80038a_resumed. Qed.
+Print Assumptions ofb_resumed_equals_sp80038a.
+
+Theorem ctr_resumed_equals_sp80038a : forall bs (E incr : list N -> list N), (bs = 16 \/ bs = 8)%nat ->
+  (forall b, length (E b) = bs) -> forall m w off sb n, length sb = bs -> (N.to_nat off < bs)%nat -> (length m <= n)%nat ->
+  snd (ctr_loop bs E incr w off sb m) = xorl m (tail_of sb off ++ ctr_keystream E incr n w).
+Proof. exact ctr_sp80038a_resumed. Qed.
+Print Assumptions ctr_resumed_equals_sp80038a.
+
+(* ===== 2. the block ciphers of the specification layer ===== *)
+
+(* FIPS-197: InvCipher(Cipher(block)) = block for every key of 128/192/256 bits and every block *)
+Theorem aes_dec_enc : forall bits key rk blk, aes_round_keys bits key = Some rk ->
+  length key = key_bytes bits -> bytes key -> wfb 16 blk ->
+  inv_cipher rk (cipher rk blk) = blk.
+Proof. exact aes_dec_enc_blk. Qed.
+Print Assumptions aes_dec_enc.
+
+(* generic Feistel lemma: the same network with the sub-keys reversed, applied to the swapped
+   output, undoes it - any round function of fixed output width, any number of rounds *)
+Theorem feistel_inverts : forall (f : list bool -> list bool -> list bool) n,
+  (forall r k, length (f r k) = n) ->
+  forall ks lr, halves n lr -> swap (feistel f (rev ks) (swap (feistel f ks lr))) = lr.
+Proof. exact feistel_inverse. Qed.
+Print Assumptions feistel_inverts.
+
+(* FIPS 46-3: deciphering (K16..K1) inverts enciphering (K1..K16), every key schedule, every block *)
+Theorem des_dec_enc : forall ks blk, wfb 8 blk -> des_crypt (rev ks) (des_crypt ks blk) = blk.
+Proof. exact des_crypt_inverse. Qed.
+Print Assumptions des_dec_enc.
+
+(* Triple-DES with the library's EDE key arrangement (muggle_tdes_set_key, both directions) *)
+Theorem tdes_dec_enc : forall m k1 k2 k3 ce cd blk, (m = ECB \/ m = CBC) ->
+  tdes_set_key true true true true OpEnc m k1 k2 k3 = (OK, Some ce) ->
+  tdes_set_key true true true true OpDec m k1 k2 k3 = (OK, Some cd) ->
+  wfb 8 blk -> tdes_blk cd (tdes_blk ce blk) = blk.
+Proof. exact tdes_dec_enc_blk. Qed.
+Print Assumptions tdes_dec_enc.
+
+(* ===== 3. the library's API functions (parameter checks included) ===== *)
+
+(* decrypt(encrypt(x)) = x through the API, every mode, every key/IV/message/offset; the decrypting
+   call also ends in the same chaining state *)
+Theorem aes_modes_dec_enc : forall fn bits key ce cd s m,
+  aes_set_key true true OpEnc fn bits key = (OK, Some ce) ->
+  aes_set_key true true OpDec fn bits key = (OK, Some cd) ->
+  length key = key_bytes bits -> bytes key -> st_ok 16 s -> msg_ok 16 fn m ->
+  exists c, r_err (aes_call fn all_ptrs ce s m) = OK /\ r_out (aes_call fn all_ptrs ce s m) = Some c /\
+            aes_call fn all_ptrs cd s c =
+            {| r_err := OK; r_out := Some m; r_st := r_st (aes_call fn all_ptrs ce s m) |}.
+Proof. exact aes_modes_dec_enc_api. Qed.
+Print Assumptions aes_modes_dec_enc.
+
+Theorem des_modes_dec_enc : forall fn key ce cd s m,
+  des_set_key true true OpEnc fn key = (OK, Some ce) ->
+  des_set_key true true OpDec fn key = (OK, Some cd) ->
+  st_ok 8 s -> msg_ok 8 fn m ->
+  exists c, r_err (des_call fn all_ptrs ce s m) = OK /\ r_out (des_call fn all_ptrs ce s m) = Some c /\
+            des_call fn all_ptrs cd s c =
+            {| r_err := OK; r_out := Some m; r_st := r_st (des_call fn all_ptrs ce s m) |}.
+Proof. exact des_modes_dec_enc_api. Qed.
+Print Assumptions des_modes_dec_enc.
+
+Theorem tdes_modes_dec_enc : forall fn k1 k2 k3 ce cd s m,
+  tdes_set_key true true true true OpEnc fn k1 k2 k3 = (OK, Some ce) ->
+  tdes_set_key true true true true OpDec fn k1 k2 k3 = (OK, Some cd) ->
+  st_ok 8 s -> msg_ok 8 fn m ->
+  exists c, r_err (tdes_call fn all_ptrs ce s m) = OK /\ r_out (tdes_call fn all_ptrs ce s m) = Some c /\
+            tdes_call fn all_ptrs cd s c =
+            {| r_err := OK; r_out := Some m; r_st := r_st (tdes_call fn all_ptrs ce s m) |}.
+Proof. exact tdes_modes_dec_enc_api. Qed.
+Print Assumptions tdes_modes_dec_enc.
+
+(* CFB / OFB / CTR: any sequence of one or more calls carrying the state is accepted and gives the
+   bytes and the final state of a single call over the concatenation *)
+Theorem aes_stream_any_partition : forall fn c s c0 chunks,
+  stream_mode fn = true -> a_mode c = fn -> op_valid (a_op c) = true -> st_ok 16 s ->
+  run_calls (aes_call fn all_ptrs c) s (c0 :: chunks) = one_call (aes_call fn all_ptrs c) s (concat (c0 :: chunks))
+  /\ accepted (one_call (aes_call fn all_ptrs c) s (concat (c0 :: chunks))).
+Proof. exact aes_stream_any_partition_api. Qed.
+Print Assumptions aes_stream_any_partition.
+
+Theorem des_stream_any_partition : forall c fn s c0 chunks,
+  stream_mode fn = true -> d_mode c = fn -> op_valid (d_op c) = true -> st_ok 8 s ->
+  run_calls (des_call fn all_ptrs c) s (c0 :: chunks) = one_call (des_call fn all_ptrs c) s (concat (c0 :: chunks))
+  /\ accepted (one_call (des_call fn all_ptrs c) s (concat (c0 :: chunks))).
+Proof. exact des_stream_any_partition_api. Qed.
+Print Assumptions des_stream_any_partition.
+
+Theorem tdes_stream_any_partition : forall c fn s c0 chunks,
+  stream_mode fn = true -> t_mode c = fn -> op_valid (t_op c) = true -> st_ok 8 s ->
+  run_calls (tdes_call fn all_ptrs c) s (c0 :: chunks) = one_call (tdes_call fn all_ptrs c) s (concat (c0 :: chunks))
+  /\ accepted (one_call (tdes_call fn all_ptrs c) s (concat (c0 :: chunks))).
+Proof. exact tdes_stream_any_partition_api. Qed.
+Print Assumptions tdes_stream_any_partition.
+
+(* ECB / CBC: a length that is not a block multiple is refused and nothing is written *)
+Theorem aes_ecb_cbc_reject_partial_len : forall fn p c s m, block_mode fn = true -> len_ok 16 m = false ->
+  r_err (aes_call fn p c s m) <> OK /\ r_out (aes_call fn p c s m) = None /\ r_st (aes_call fn p c s m) = s.
+Proof. exact aes_ecb_cbc_reject_partial. Qed.
+Print Assumptions aes_ecb_cbc_reject_partial_len.
+
+Theorem des_tdes_ecb_cbc_reject_partial_len : forall blk o cm fn p s m, block_mode fn = true -> len_ok 8 m = false ->
+  r_err (d_call blk o cm fn p s m) <> OK /\ r_out (d_call blk o cm fn p s m) = None /\ r_st (d_call blk o cm fn p s m) = s.
+Proof. exact d_ecb_cbc_reject_partial. Qed.
+Print Assumptions des_tdes_ecb_cbc_reject_partial_len.
+
+(* other invalid parameters: NULL pointer, mode function that does not match the context, offset >=
+   block size -> rejected; rejected -> output untouched, chaining state unchanged; valid -> accepted *)
+Theorem aes_invalid_params_rejected : forall fn p c s m,
+  call_valid 16 fn (a_mode c) p s m = false -> r_err (aes_call fn p c s m) <> OK.
+Proof. exact aes_invalid_rejected. Qed.
+Print Assumptions aes_invalid_params_rejected.
+
+Theorem des_tdes_invalid_params_rejected : forall blk o cm fn p s m,
+  call_valid 8 fn cm p s m = false -> r_err (d_call blk o cm fn p s m) <> OK.
+Proof. exact d_invalid_rejected. Qed.
+Print Assumptions des_tdes_invalid_params_rejected.
+
+Theorem aes_rejected_writes_nothing : forall fn p c s m,
+  r_err (aes_call fn p c s m) <> OK -> r_out (aes_call fn p c s m) = None /\ r_st (aes_call fn p c s m) = s.
+Proof. exact aes_reject_writes_nothing. Qed.
+Print Assumptions aes_rejected_writes_nothing.
+
+Theorem des_tdes_rejected_writes_nothing : forall blk o cm fn p s m,
+  r_err (d_call blk o cm fn p s m) <> OK -> r_out (d_call blk o cm fn p s m) = None /\ r_st (d_call blk o cm fn p s m) = s.
+Proof. exact d_reject_writes_nothing. Qed.
+Print Assumptions des_tdes_rejected_writes_nothing.
+
+Theorem aes_valid_params_accepted : forall fn p c s m,
+  call_valid 16 fn (a_mode c) p s m = true -> op_valid (a_op c) = true -> r_err (aes_call fn p c s m) = OK.
+Proof. exact aes_valid_accepted. Qed.
+Print Assumptions aes_valid_params_accepted.
+
+Theorem des_tdes_valid_params_accepted : forall blk o cm fn p s m,
+  call_valid 8 fn cm p s m = true -> op_valid o = true -> r_err (d_call blk o cm fn p s m) = OK.
+Proof. exact d_valid_accepted. Qed.
+Print Assumptions des_tdes_valid_params_accepted.
+
+(* set_key: bad op / mode / key size / NULL key or context are refused *)
+Theorem set_key_rejects_invalid : forall pk pc p2 p3 o fn bits key k2 k3,
+  (op_valid o = false \/ mode_valid fn = false \/ pk = false \/ pc = false -> fst (aes_set_key pk pc o fn bits key) <> OK) /\
+  (aes_params bits = None -> fst (aes_set_key pk pc o fn bits key) <> OK) /\
+  (op_valid o = false \/ mode_valid fn = false \/ pk = false \/ pc = false -> fst (des_set_key pk pc o fn key) <> OK) /\
+  (op_valid o = false \/ mode_valid fn = false \/ pk = false \/ p2 = false \/ p3 = false \/ pc = false ->
+   fst (tdes_set_key pk p2 p3 pc o fn key k2 k3) <> OK).
+Proof. exact set_key_rejects. Qed.
+Print Assumptions set_key_rejects_invalid.
+
+(* ===== 4. validation of the transcription against the standards' own vectors (vm_compute) ===== *)
+
+(* FIPS-197 Appendix A (key expansion 128/192/256), B (cipher example with round-1 intermediate
+   values), C.1-C.3 (example vectors, both directions) *)
+Theorem aes_spec_reproduces_fips197_vectors : fips197_vectors_hold.
+Proof. exact fips197_vectors_ok. Qed.
+Print Assumptions aes_spec_reproduces_fips197_vectors.
+
+(* DES known answers (worked example with K1, FIPS 81, NBS/SP 800-17 variable plaintext / key /
+   permutation / substitution samples), TDEA SP 800-67 B.1 *)
+Theorem des_spec_reproduces_known_answers : des_vectors_hold.
+Proof. exact des_vectors_ok. Qed.
+Print Assumptions des_spec_reproduces_known_answers.
+
+(* SP 800-38A F.1 (ECB), F.2 (CBC), F.3.13-18 (CFB128), F.4 (OFB), F.5 (CTR, one counter block per
+   vector) for AES-128/192/256, both directions, run through the transcribed mode loops and API checks *)
+Theorem modes_reproduce_sp80038a_vectors : sp80038a_vectors_hold.
+Proof. exact sp80038a_vectors_ok. Qed.
+Print Assumptions modes_reproduce_sp80038a_vectors.
